@@ -18,8 +18,8 @@ from vf.semi import model
 ID = "C10"
 RULE = (
     "case = (two transducers over {a,b}: <=3 states, <=6 arcs each, output-epsilon / input-epsilon / "
-    "eps:eps arcs, cycles, several initial and final states, either size ordering; regime QQ, REAL or "
-    "BOOL; 8 drawn string pairs of length <=2 plus all pairs of length <=1); (f@g) read as data and "
+    "eps:eps arcs, cycles, several initial and final states, gapped state names, either size ordering; regime QQ, REAL, FLOAT or "
+    "BOOL (a third of the REAL/FLOAT machines re-weighted by a potential: arcs 1e-14..1e14, path weights unchanged); 8 drawn string pairs of length <=2 plus all pairs of length <=1); (f@g) read as data and "
     "reference-evaluated vs the relational composition; f(x,y), f(x,None)(y), f(None,y)(x), f.T(y,x), "
     "project(0/1), from_string, diag, from_pairs vs the reference relation; non-trivial = f has an "
     "output-epsilon arc, g an input-epsilon arc and some composed value is non-zero; distinct = SHA-1 of the case"
@@ -39,10 +39,10 @@ SIG = ["a", "b"]
 
 @st.composite
 def strategy(draw, tier="quick"):
-    regime = draw(st.sampled_from(["QQ", "QQ", "QQ", "REAL", "BOOL"]))
+    regime = draw(st.sampled_from(["QQ", "QQ", "QQ", "REAL", "FLOAT", "BOOL"]))
     acyc = draw(st.integers(0, 3)) == 0
-    f = draw(gen.transducer(regime=regime, acyclic=acyc, max_states=draw(st.sampled_from([1, 2, 3]))))
-    g = draw(gen.transducer(regime=regime, acyclic=acyc, max_states=draw(st.sampled_from([1, 2, 3]))))
+    f = draw(gen.transducer(regime=regime, acyclic=acyc, max_states=draw(st.sampled_from([1, 2, 3])), dynrange=True))
+    g = draw(gen.transducer(regime=regime, acyclic=acyc, max_states=draw(st.sampled_from([1, 2, 3])), dynrange=True))
     s = st.lists(st.sampled_from(SIG), max_size=2)
     pairs = draw(st.lists(st.tuples(s, s).map(list), min_size=8, max_size=8))
     fp = draw(st.lists(st.tuples(st.lists(st.sampled_from(SIG), max_size=3), st.lists(st.sampled_from(SIG), max_size=3)).map(list), max_size=3))
